@@ -44,9 +44,8 @@ Qed.
 (* refactor.Template with a transformation that reports "unchanged" returns the template verbatim *)
 Theorem identity_verbatim_stmt : forall (isln : N -> bool) (lower : N -> N) (printable : N -> bool) tops s,
   isln 0 = false -> nulfree s ->
-  exists out errs inside,
-    refactor_template isln lower printable (fun _ => None) tops s = Ok (out, errs, inside)
-    /\ (inside = true -> out = s).
+  exists errs inside,
+    refactor_template isln lower printable (fun _ => None) tops s = Ok (s, errs, inside).
 Proof. intros isln lower printable tops s H0 Hn. exact (refactor_unchanged_verbatim isln lower H0 printable tops s Hn). Qed.
 
 (* ContextRefRename changes exactly the matching references *)
@@ -94,6 +93,18 @@ Proof.
     + rewrite E, E2. reflexivity.
 Qed.
 
+(* witnesses, computed once *)
+Definition r_inp1 : ExSyntax.text := [0x13A0].
+Definition r_inp2 : ExSyntax.text := [34; 97; 92; 120; 53; 99; 34; 32; 38; 32; 34; 98; 34].
+Definition toks_or_nil (r : lresult) : list token := match r with LOk ts => ts | _ => [] end.
+Definition tree_or_null (r : presult) : expr := match r with POk t => t | _ => ENull end.
+Definition r_ts1 : list token := Eval vm_compute in toks_or_nil (lex r_inp1).
+Definition r_t1 : expr := Eval vm_compute in tree_or_null (parse_tokens r_ts1).
+Definition r_ts1' : list token := Eval vm_compute in toks_or_nil (lex (print w_lower w_printable r_t1)).
+Definition r_ts2 : list token := Eval vm_compute in toks_or_nil (lex r_inp2).
+Definition r_t2 : expr := Eval vm_compute in tree_or_null (parse_tokens r_ts2).
+Definition r_ts2' : list token := Eval vm_compute in toks_or_nil (lex (print w_lower w_printable r_t2)).
+
 (* the side condition cannot be dropped: a name whose lower-case form leaves the grammar's letter set (Cherokee
    U+13A0 -> U+AB70), and a text literal whose value ends in a backslash before a later quote (the source
    "a\x5c" & "b") — the printed text of a parseable expression does not parse *)
@@ -105,23 +116,27 @@ Theorem roundtrip_refuted :
     (exists ts t, lex inp2 = LOk ts /\ parse_tokens ts = POk t /\
        exists ts', lex (print lower printable t) = LOk ts' /\ parse_tokens ts' = PSyntax).
 Proof.
-  exists w_lower, w_printable, [0x13A0], [34; 97; 92; 120; 53; 99; 34; 32; 38; 32; 34; 98; 34].
+  exists w_lower, w_printable, r_inp1, r_inp2.
   split; [reflexivity|]. split; [exact w_lower_idem|]. split; [repeat constructor|]. split; [repeat constructor|].
   split.
-  - eexists. eexists. split; [vm_compute; reflexivity|]. split; [vm_compute; reflexivity|].
-    eexists. split; vm_compute; reflexivity.
-  - eexists. eexists. split; [vm_compute; reflexivity|]. split; [vm_compute; reflexivity|].
-    eexists. split; vm_compute; reflexivity.
+  - exists r_ts1, r_t1. split; [vm_compute; reflexivity|]. split; [vm_compute; reflexivity|].
+    exists r_ts1'. split; vm_compute; reflexivity.
+  - exists r_ts2, r_t2. split; [vm_compute; reflexivity|]. split; [vm_compute; reflexivity|].
+    exists r_ts2'. split; vm_compute; reflexivity.
 Qed.
 
 (* the side condition holds on ordinary expressions:  - Foo.Bar ^ 2 * f(x, "a\\") [ 01.50 ]  and  foo.1 .2  *)
+Definition g_inp1 : ExSyntax.text :=
+  [45; 32; 70; 111; 111; 46; 66; 97; 114; 32; 94; 32; 50; 32; 42; 32; 102; 40; 120; 44; 32; 34; 97; 92; 92; 34; 41;
+   32; 91; 32; 48; 49; 46; 53; 48; 32; 93].
+Definition g_inp2 : ExSyntax.text := [102; 111; 111; 46; 49; 32; 46; 50].
+Definition g_ts1 : list token := Eval vm_compute in toks_or_nil (lex g_inp1).
+Definition g_t1 : expr := Eval vm_compute in tree_or_null (parse_tokens g_ts1).
+Definition g_ts2 : list token := Eval vm_compute in toks_or_nil (lex g_inp2).
+Definition g_t2 : expr := Eval vm_compute in tree_or_null (parse_tokens g_ts2).
+
 Example glue_free_witness :
-  let inp1 := [45; 32; 70; 111; 111; 46; 66; 97; 114; 32; 94; 32; 50; 32; 42; 32; 102; 40; 120; 44; 32; 34; 97; 92; 92; 34; 41;
-               32; 91; 32; 48; 49; 46; 53; 48; 32; 93] in
-  let inp2 := [102; 111; 111; 46; 49; 32; 46; 50] in
-  exists ts1 t1 ts2 t2, lex inp1 = LOk ts1 /\ parse_tokens ts1 = POk t1 /\ glue_free w_lower w_printable t1 = true
-                     /\ lex inp2 = LOk ts2 /\ parse_tokens ts2 = POk t2 /\ glue_free w_lower w_printable t2 = true.
-Proof.
-  cbv zeta. do 4 eexists. split; [vm_compute; reflexivity|]. split; [vm_compute; reflexivity|].
-  split; [vm_compute; reflexivity|]. split; [vm_compute; reflexivity|]. split; [vm_compute; reflexivity|]. vm_compute. reflexivity.
-Qed.
+  lex g_inp1 = LOk g_ts1 /\ parse_tokens g_ts1 = POk g_t1 /\ glue_free w_lower w_printable g_t1 = true
+  /\ lex g_inp2 = LOk g_ts2 /\ parse_tokens g_ts2 = POk g_t2 /\ glue_free w_lower w_printable g_t2 = true
+  /\ g_t2 = EDot (EDot (ECtxRef [102; 111; 111]) [49]) [50].
+Proof. repeat split; vm_compute; reflexivity. Qed.
